@@ -380,6 +380,28 @@ def run(ctx, anchors=None, failed_step_rule=False):
     else:
         ctx.ok("R04.5", "snapshot-dropped-on-exception", stepper.loc(call), "no exception can leave the operation step, or nothing is pushed before it")
 
+    # ---- R04.6 the step that finishes a session (the end-of-script epilogue sets `done`) pushes no history entry; undoing it
+    # must therefore not pop one: on every path of Instance::rewind that found the session finished, RewindScript is not called
+    from .. import symx as _sx4
+    ctx.rule("R04.6", "undoing the finishing step only reopens the session: Instance::rewind does not pop a history entry when the session was done")
+    irw = fb.fn(*A["inst_rewind"])
+    X4 = _sx4.Explorer(prog, inline=lambda fn, n: False, transparent=lambda n: True)
+    try:
+        outs4 = X4.explore(irw, this=("a", "this"), limit=500)
+    except _sx4.Unsupported as e:
+        raise AnalysisBroken("R04.6: %s" % e)
+    done_paths = [o for o in outs4 if any(v and isinstance(t, tuple) and t[0] == "f" and t[2] == "done" for (t, v) in o.conds)]
+    ctx.site(len(outs4))
+    if not done_paths:
+        ctx.fail("R04.6", "finishing-step-undone-without-pop", irw.loc(), "Instance::rewind never asks whether the session is finished: the step that set `done` recorded no history entry, "
+                 "so rewinding after it pops the entry of the last real operation as well (step x3, rewind on a two-operation script goes back two operations)")
+    else:
+        bad6 = [o for o in done_paths if any(e.kind == "call" and e.name == rewind.name.split("::")[-1] for e in o.events)]
+        ctx.inst(not bad6, "R04.6", "finishing-step-undone-without-pop", irw.loc(),
+                 "when the session was finished, rewind clears `done` and does not call %s" % rewind.name,
+                 "when the session is finished Instance::rewind clears `done` and still calls %s: the finishing step pushed no history entry, so the entry of the last real operation "
+                 "is popped too - `[OP_1 OP_2]`: step, step, step, rewind leaves the stack at 01 instead of 01 02" % rewind.name)
+
     if failed_step_rule:
         # (decided for C12 / C01, not for C04 whose histories contain no failing step) a failed operation step leaves the
         # session at the failing operation: every snapshotted field is put back from its snapshot on the failing edge
@@ -544,6 +566,7 @@ def run(ctx, anchors=None, failed_step_rule=False):
 
 
 MUTANTS = [
+    dict(name="finishing-step-undone-with-pop", file="instance.cpp", find="        env->done = false;\n        return true;\n", replace="        env->done = false;\n", expect=["R04.6:finishing-step-undone-without-pop"]),
     dict(name="handler-does-not-undo", file="debugger/interpreter.cpp", find="            UndoFailedStep(env);\n            throw;\n", replace="            throw;\n", expect=["R04.5:snapshot-dropped-on-exception"]),
     dict(name="step-not-guarded-by-try", file="debugger/interpreter.cpp", regex=True, find=r"        try \{\n            if \(!StepScript\(env, pc\)\) \{\n                UndoFailedStep\(env\);\n                return false;\n            \}\n        \} catch \(\.\.\.\) \{\n.*?            throw;\n        \}\n",
          replace="        if (!StepScript(env, pc)) {\n            UndoFailedStep(env);\n            return false;\n        }\n", expect=["R04.5:snapshot-dropped-on-exception"]),
